@@ -85,6 +85,13 @@ class Item:
         return f"Item<{self.tag}>"
 
 
+@dataclass(eq=False)
+class IdItem(Item):
+    """an Item whose class happens to have a field called `_id_` (every instance the same value): user data, not the
+    library's business"""
+    _id_: Any = 7
+
+
 @symbol
 @dataclass(eq=False)
 class Kid:
@@ -233,6 +240,12 @@ class Sub(Base):            # decorated subclass, inherits the fields
 
 
 @dataclass(eq=False)
+class FalsyBase(Base):      # an instance that is falsy (an empty container-like object): still an object like any other
+    def __bool__(self):
+        return False
+
+
+@dataclass(eq=False)
 class USub(Base):           # undecorated subclass with an extra field
     w: Any = 9
 
@@ -348,7 +361,7 @@ class Made2(View):
         return f"Made2({self.a!r},{self.b!r})"
 
 
-CLASSES = {c.__name__: c for c in (Item, Kid, Other, Base, Sub, USub, Leaf, Hand, Brittle, Holder, View, Made, MadeB, Made2, Part, Rev, VItem, Dflt,
+CLASSES = {c.__name__: c for c in (Item, IdItem, Kid, Other, Base, FalsyBase, Sub, USub, Leaf, Hand, Brittle, Holder, View, Made, MadeB, Made2, Part, Rev, VItem, Dflt,
                                            Hand0)}
 
 
